@@ -2,7 +2,7 @@
    SPEC: WfSpec.fits (the property's sentence as a boolean).  MODEL: Bind.with_signals.
    Property theorems only; proofs in proofs/BindProof.v. *)
 From DTR Require Import Prelude I64 Ast FramedMap Parser Bind Eval Stmt Iter WfSpec.
-From DTR.proofs Require Import BindProof.
+From DTR.proofs Require Import BindProof BindErrorSpec.
 Local Open Scope nat_scope.
 
 (* for EVERY parsed test and EVERY signal list (any names, directions, order, duplicates,
@@ -46,6 +46,71 @@ Theorem C11_c_columns_are_inputs : forall p sigs0 tc j nm, NoDup (p_signals p) -
   entry_is_input tc j = true.
 Proof. exact BindProof.C11_c_columns_are_inputs. Qed.
 
+(* WHICH error a refused binding gets: `refusal_exact` is a declarative specification (find / filter over the parsed test and the signal list, no call of the checking code) with this priority - a repeated device-signal name (the first later occurrence), a declared name that is also a device signal (first declaration in source order), the header columns that name no signal (all of them, in header order, <bidirectional>_out taken into account), a C column that is not input-capable, an identifier read that is not output-capable - and the code returns exactly that error, for every parsed test and every signal list *)
+Theorem C11_which_error :
+  forall (p : parsed) (sigs0 : list signal) (e : serr),
+  with_signals p sigs0 = Err e <-> refusal_exact p sigs0 = Some e.
+Proof. exact with_signals_refusal_exact. Qed.
+
+(* so binding is completely characterised: either Ok, and then the two fit, or the specified error *)
+Theorem C11_total_characterisation :
+  forall (p : parsed) (sigs0 : list signal),
+  (exists tc : testcase,
+  with_signals p sigs0 = Ok tc /\
+  refusal_exact p sigs0 = None /\ fits p sigs0 = true /\ NoDup (p_signals p)) \/
+  (exists e : serr, with_signals p sigs0 = Err e /\ refusal_exact p sigs0 = Some e).
+Proof. exact with_signals_total. Qed.
+
+(* (the simpler form `refusal` for duplicate-free headers, which the parser guarantees) *)
+Theorem C11_which_error_simple_form :
+  forall (p : parsed) (sigs0 : list signal) (e : serr),
+  NoDup (p_signals p) -> with_signals p sigs0 = Err e <-> refusal p sigs0 = Some e.
+Proof. exact with_signals_refusal. Qed.
+
+(* a repeated device-signal name is reported whatever else is wrong *)
+Theorem C11_duplicate_signal_wins :
+  forall (p : parsed) (sigs0 : list signal),
+  ~ NoDup (map sname sigs0) ->
+  exists (n : name) (l1 l2 : list name),
+  map sname sigs0 = l1 ++ n :: l2 /\
+  NoDup l1 /\
+  In n l1 /\
+  refusal p sigs0 = Some (SE_DuplicateSignal n) /\ with_signals p sigs0 = Err (SE_DuplicateSignal n).
+Proof. exact refusal_duplicate_first. Qed.
+
+(* when names are distinct, the unknown-signals error carries exactly the columns that fit no signal, in header order *)
+Theorem C11_unknown_columns_are_all_reported :
+  forall (p : parsed) (sigs0 : list signal),
+  NoDup (p_signals p) ->
+  NoDup (map sname sigs0) ->
+  forallb (fun v : name * expr * span => negb (clashes sigs0 v)) (p_virtuals p) = true ->
+  forallb (column_fits p sigs0) (p_signals p) = false ->
+  let missing := filter (fun c : name => negb (column_fits p sigs0 c)) (p_signals p) in
+  refusal p sigs0 = Some (SE_UnknownSignals missing (map (column_span p) missing)) /\
+  with_signals p sigs0 = Err (SE_UnknownSignals missing (map (column_span p) missing)).
+Proof. exact refusal_unknown_columns_exact. Qed.
+
+(* the error does not depend on the ORDER of the signal list when no name is repeated ... *)
+Theorem C11_error_independent_of_signal_order :
+  forall (p : parsed) (sigs0 sigs0' : list signal) (e : serr),
+  Permutation.Permutation sigs0 sigs0' ->
+  NoDup (map sname sigs0) -> with_signals p sigs0 = Err e <-> with_signals p sigs0' = Err e.
+Proof. exact with_signals_error_order_invariant. Qed.
+
+(* ... and with a repeated name only the reported name can change *)
+Theorem C11_error_order_with_duplicates :
+  forall (p : parsed) (sigs0 sigs0' : list signal),
+  Permutation.Permutation sigs0 sigs0' ->
+  refusal_exact p sigs0 = refusal_exact p sigs0' \/
+  (exists n n' : name,
+  with_signals p sigs0 = Err (SE_DuplicateSignal n) /\
+  with_signals p sigs0' = Err (SE_DuplicateSignal n')).
+Proof. exact refusal_order_of_signals_any. Qed.
+
+
 Check C11_bind_iff_fits.
 Print Assumptions C11_bind_iff_fits.
 Print Assumptions C11_bound_is_wf.
+Print Assumptions C11_which_error.
+Print Assumptions C11_total_characterisation.
+Print Assumptions C11_error_independent_of_signal_order.
